@@ -17,6 +17,7 @@ func init() {
 			"the daemon stream read API (no record lost before the limit applies); LP-OFFLOAD scan (filters after a line-rewriting stage stay in the engine)",
 			"the distinct rule (key = (label, value)); drop/keep delete exactly the selected labels",
 			"PV-ROLE label_format rename: Get/Set/Delete of one pair happen in one loop iteration",
+			"PV-ROLE drop/keep value matchers are built in the label flavour; LP-ERRPATH for every stage that flags __error__",
 		},
 		NotDecided: []string{"'in time order' across streams depends on the storage delivering records in time order (C04)", "count equality with the number of matches is C01"},
 		Rules: func(r *Run) {
@@ -31,8 +32,10 @@ func init() {
 			ruleDaemonLog(r)                                                 // no record is lost before the limit is applied: the stream is read through io.ReadFull / io.CopyN
 			ruleLPOffload(r)                                                 // line filters after a stage that rewrites the line are not evaluated by the storage on the old line
 			ruleDistinct(r)
-			ruleDropKeep(r)             // the labels a record keeps decide its stream: drop/keep delete exactly the selected labels
-			ruleLabelFormatDirection(r) // a renamed label stays: the source is deleted in the iteration that renamed it
+			ruleDropKeep(r)                                                                                                                                                                           // the labels a record keeps decide its stream: drop/keep delete exactly the selected labels
+			ruleLabelFormatDirection(r)                                                                                                                                                               // a renamed label stays: the source is deleted in the iteration that renamed it
+			ruleErrorPathKeepsLine(r, []string{"DurationLabelFilter", "BytesLabelFilter", "NumberLabelFilter", "IPLabelFilter", "JSONExtractor", "LogfmtExtractor", "UnpackExtractor", "LineFormat"}) // min(L, N) entries: a stage that fails on a line flags it and keeps it
+			ruleDropKeepMatchers(r)
 		},
 	})
 }
